@@ -466,13 +466,24 @@ fn serialise_router_advertisement(a: &RtrAdvertisement) -> Vec<u8> {
                 v.serialise(&mask_prefix(&prefix.prefix, prefix.prefixlen));
             }
             NDOptionValue::RecursiveDnsServers((lifetime, servers)) => {
-                use std::convert::TryFrom as _;
-                v.serialise(RDNSS.0);
-                v.serialise(u8::try_from(1 + servers.len() * 2).unwrap());
-                v.serialise(0_u16); // Reserved / Padding.
-                v.serialise(saturating_u32(lifetime.as_secs()));
-                for server in servers {
-                    v.serialise(server);
+                /* The option length is one octet, in units of 8 octets: the header is one unit,
+                 * every address two.  More addresses than fit go into further options, which
+                 * RFC8106 Section 5.1 allows.
+                 */
+                const MAX_SERVERS: usize = (u8::MAX as usize - 1) / 2;
+                let options: Vec<&[std::net::Ipv6Addr]> = if servers.is_empty() {
+                    vec![&[]]
+                } else {
+                    servers.chunks(MAX_SERVERS).collect()
+                };
+                for servers in options {
+                    v.serialise(RDNSS.0);
+                    v.serialise((1 + servers.len() * 2) as u8);
+                    v.serialise(0_u16); // Reserved / Padding.
+                    v.serialise(saturating_u32(lifetime.as_secs()));
+                    for server in servers {
+                        v.serialise(server);
+                    }
                 }
             }
             NDOptionValue::DnsSearchList((lifetime, suffixes)) => {
